@@ -15,6 +15,7 @@ import (
 	mpb "github.com/vbauerster/mpb/v8"
 	"github.com/vbauerster/mpb/v8/decor"
 	"pgregory.net/rapid"
+	"verif/harness/engine"
 	"verif/harness/vpty"
 	"verif/harness/vstat"
 )
@@ -61,6 +62,17 @@ type c07Case struct {
 	Completed bool       `json:"completed"`
 	Aborted   bool       `json:"aborted"`
 	Reps      int        `json:"reps"`
+	// mode "frames": a whole container (several bars, more rows than the height,
+	// bars leaving so that hidden ones come into view); every row of every frame
+	// must stay within the width
+	Scen *engine.Scenario `json:"scen,omitempty"`
+}
+
+// profC07Frames: small heights, many bars, bars dropped and removed.
+var profC07Frames = Profile{
+	MaxBars: 8, MinBars: 3, MaxSteps: 30, Refresh: []string{"manual"}, QLens: []int{-1},
+	Pop: 20, Rm: 40, AbortW: 4, TicksW: 10, Ext: 20, Text: 1, Pty: 100, PtyRowsMax: 5,
+	PlainDecors: 1, SyncDecors: 1, Fillers: []string{"bar", "nop", "spinner"}, LateAdd: true, ChurnW: 2, BuiltinPct: 30, // (the harness's own "tag" filler ignores the width it is given)
 }
 
 func init() {
@@ -135,7 +147,14 @@ func genC07Decor(t *rapid.T, sync bool) c07Decor {
 
 func genC07(t *rapid.T) interface{} {
 	c := &c07Case{}
-	c.Mode = rapid.SampledFrom([]string{"fill", "fill", "decor", "row", "row"}).Draw(t, "mode")
+	c.Mode = rapid.SampledFrom([]string{"fill", "fill", "decor", "row", "row", "frames"}).Draw(t, "mode")
+	if c.Mode == "frames" {
+		c.Scen = genScenario(t, &profC07Frames)
+		repairQueue(c.Scen)
+		c.TW = c.Scen.Cfg.PtyCols
+		c.Style.Kind = "bar"
+		return c
+	}
 	c.TW = rapid.OneOf(rapid.IntRange(0, 8), rapid.IntRange(0, 60), rapid.IntRange(0, 250)).Draw(t, "tw")
 	switch rapid.IntRange(0, 3).Draw(t, "reqmode") {
 	case 0:
@@ -421,6 +440,30 @@ func runC07(ci interface{}) Result {
 		nt = true
 	}
 	switch c.Mode {
+	case "frames":
+		r.Kind = "frames"
+		tr := engine.Run(c.Scen, engine.Options{})
+		if tr.Inconclusive != "" || tr.Hang != nil {
+			r.Inconclusive = tr.Inconclusive != ""
+			return r
+		}
+		hidden := false
+		if sim := engine.Simulate(c.Scen); sim.OK && sim.Clipped {
+			hidden = true
+			r.Classes = append(r.Classes, "frames:clipped")
+		}
+		for k, f := range tr.Frames() {
+			for _, ln := range f.Lines {
+				if ln.Kind == "text" {
+					continue
+				}
+				if w := c07Width(ln.Raw); w > c.Scen.Cfg.PtyCols {
+					r.Err = fmt.Errorf("frame %d: row %q has display width %d > terminal width %d", k, ln.Raw, w, c.Scen.Cfg.PtyCols)
+					return r
+				}
+			}
+		}
+		nt = hidden
 	case "fill":
 		r.Err, r.Kind = c07RunFill(c), "fill"
 		if c.TW < 6 {
